@@ -238,7 +238,7 @@ def run(ctx: Ctx) -> Result:
         synth = [(t, []) for t in G.all_types(quick)]
         if not quick:
             synth = synth[: 9000] + synth[9000::3]
-        cases = synth + inferred_types(ctx.tier)
+        cases = synth + inferred_types(ctx.tier) + [(t, []) for t in G.typing_named()]
         memo: Dict[Tuple[str, Any], Tuple[Any, Any]] = {}
 
         for ci in range(si, len(cases), nshards):
@@ -265,7 +265,7 @@ def replay(case: Dict[str, Any], ctx: Ctx) -> List[Violation]:
     synth = [(t, []) for t in G.all_types(quick)]
     if not quick:
         synth = synth[: 9000] + synth[9000::3]
-    cases = synth + inferred_types(case["tier"])
+    cases = synth + inferred_types(case["tier"]) + [(t, []) for t in G.typing_named()]
     X, exprs = cases[case["type_index"]]
     res = Result()
     process_type(res, case["tier"], case["type_index"], X, exprs, singles(), {}, DEFAULT_REWRITER, ChainedRewriter)
